@@ -1,0 +1,99 @@
+//go:build verif
+
+package executors
+
+// Contracts for the deductive verifier in /verif (govc). Comment-only file: adds no code.
+
+// ---- containers: tasks are kept in insertion order; a removed batch is handed out whole and the container
+// starts again from an empty list that does not share storage with the batch ----
+//@ func (*bulkContainer).AddTask
+//@   prop C16
+//@   requires bc != nil
+//@   ensures [appended] len(bc.tasks) == old(len(bc.tasks)) + 1 && bc.tasks[old(len(bc.tasks))] == task
+//@   ensures [order-kept] forall(j, 0, old(len(bc.tasks)), bc.tasks[j] == old(bc.tasks[j]))
+//@   ensures [threshold] result == (len(bc.tasks) >= bc.maxTasks)
+//@ func (*bulkContainer).RemoveAll
+//@   prop C16
+//@   requires bc != nil
+//@   ensures [hands-out-all] unbox(result, []any) == old(bc.tasks)
+//@   ensures [starts-afresh] bc.tasks == nil && len(bc.tasks) == 0
+//@   modifies bc.tasks, cells([]any)
+//@ func (*bulkContainer).Execute
+//@   prop C16
+//@   requires bc != nil
+//@   ensures [executes-batch] calls(execute) == 1 && arg(execute, 0) == unbox(tasks, []any)
+//@ func (*chunkContainer).AddTask
+//@   prop C16
+//@   requires bc != nil && typeis(task, chunk)
+//@   let ck = unbox(task, chunk)
+//@   ensures [appended] len(bc.tasks) == old(len(bc.tasks)) + 1 && bc.tasks[old(len(bc.tasks))] == ck.val
+//@   ensures [order-kept] forall(j, 0, old(len(bc.tasks)), bc.tasks[j] == old(bc.tasks[j]))
+//@   ensures [bytes] bc.size == old(bc.size) + ck.size && result == (bc.size >= bc.maxChunkSize)
+//@   ensures [overshoot-less-than-last] old(bc.size) < bc.maxChunkSize ==> bc.size - bc.maxChunkSize < ck.size
+//@ func (*chunkContainer).RemoveAll
+//@   prop C16
+//@   requires bc != nil
+//@   ensures [hands-out-all] unbox(result, []any) == old(bc.tasks)
+//@   ensures [starts-afresh] bc.tasks == nil && len(bc.tasks) == 0 && bc.size == 0
+//@   modifies bc.tasks, bc.size, cells([]any)
+//@ func (*chunkContainer).Execute
+//@   prop C16
+//@   requires bc != nil
+//@   ensures [executes-batch] calls(execute) == 1 && arg(execute, 0) == unbox(tasks, []any)
+
+// ---- PeriodicalExecutor ----
+// addAndCheck (under pe.lock): a full container is removed and counted in flight in the same critical section;
+// a flusher is started iff none is alive.
+//@ func (*PeriodicalExecutor).addAndCheck
+//@   prop C16
+//@   opaque backgroundFlush
+//@   requires pe != nil
+//@   ensures [add-once] calls(pe.container.AddTask, task) == 1
+//@   ensures [full-batch-taken] ret(AddTask) ==> result1 && result0 == ret(RemoveAll) && calls(RemoveAll) == 1 && pe.inflight == old(pe.inflight) + 1
+//@   ensures [not-full] !ret(AddTask) ==> !result1 && result0 == nil && calls(RemoveAll) == 0 && pe.inflight == old(pe.inflight)
+//@   ensures [under-lock] before("lock", AddTask) && before(AddTask, "unlock") && before(RemoveAll, "unlock") && calls("lock") == 1 && calls("unlock") == 1
+//@   ensures [flusher-started-iff-none] (calls(backgroundFlush) == 1) == !old(pe.guarded) && pe.guarded
+
+// Add: a batch taken by this call is handed to the flusher and the adder waits for its confirmation.
+//@ func (*PeriodicalExecutor).Add
+//@   prop C16
+//@   opaque addAndCheck
+//@   requires pe != nil
+//@   ensures [handover] ret(addAndCheck, 1) ==> calls("send") == 1 && arg("send", 0) == ret(addAndCheck, 0) && calls("recv") == 1 && before("send", "recv")
+//@   ensures [nothing-to-hand] !ret(addAndCheck, 1) ==> calls("send") == 0 && calls("recv") == 0
+//@   ensures [adds] calls(pe.addAndCheck, task) == 1
+
+// executeTasks: runs the batch exactly once iff it has tasks; the execution is always signed off (also on panic).
+//@ func (*PeriodicalExecutor).executeTasks
+//@   prop C16
+//@   opaque hasTasks
+//@   may-panic Execute
+//@   requires pe != nil
+//@   ensures [once-iff-tasks] (calls(pe.container.Execute, tasks) == 1) == ret(hasTasks) && calls(Execute) <= 1 && result == ret(hasTasks)
+//@   ensures [signed-off] calls("wg.Done") == 1
+//@   panic-ensures [signed-off-on-panic] calls("wg.Done") == 1
+
+// Flush: the execution is registered (WaitGroup.Add) before the batch is taken out of the container, and the
+// batch that was taken is the one executed.
+//@ func (*PeriodicalExecutor).Flush
+//@   prop C16
+//@   opaque executeTasks
+//@   requires pe != nil
+//@   ensures [register-then-take] calls("wg.Add") == 1 && calls(RemoveAll) == 1 && before("wg.Add", RemoveAll) && before(RemoveAll, executeTasks)
+//@   ensures [executes-what-it-took] calls(pe.executeTasks, ret(RemoveAll)) == 1 && result == ret(executeTasks)
+//@   ensures [take-under-lock] before(on("lock", pe.lock), RemoveAll) && before(RemoveAll, on("unlock", pe.lock)) && calls(on("lock", pe.lock)) == 1
+
+// Wait: flush first, then wait for every registered execution.
+//@ func (*PeriodicalExecutor).Wait
+//@   prop C16
+//@   opaque Flush
+//@   requires pe != nil
+//@   ensures [flush-then-wait] calls(pe.Flush) == 1 && calls("wg.Wait") == 1 && before(Flush, "wg.Wait")
+
+// shallQuit: the flusher retires only when nothing is in flight, decided under the lock together with `guarded`.
+//@ func (*PeriodicalExecutor).shallQuit
+//@   prop C16
+//@   requires pe != nil
+//@   ensures [quit-only-idle-and-empty] result ==> pe.inflight == 0 && !pe.guarded && ret(timex.Now) - last > pe.interval * 10
+//@   ensures [stay] !result ==> pe.guarded == old(pe.guarded)
+//@   ensures [decided-under-lock] result ==> calls("lock") == 1 && calls("unlock") == 1
